@@ -128,6 +128,18 @@ def execute(cfg, ops, seed, top, snapshot_rejects=False, after_each=None, sparse
     run.after_close = None
     if w is not None:
         w.close()
+        # calls on the closed writer are refused and change nothing it reports
+        g_closed = rf.getters(w)
+        arr1 = rf.values_for(cur_cfg, seed, [model.cursor + 3], [0], 2)
+        for name_, call_ in (("rf_write", lambda: w.rf_write(arr1, model.cursor + 3)),
+                             ("rf_write_blocks", lambda: w.rf_write_blocks(arr1, [model.cursor + 3], [0]))):
+            try:
+                call_()
+                run.errors.append(({"class": "write_on_closed_writer_accepted", "call": name_}, "%s on a closed writer returned normally" % name_))
+            except Exception as e:  # noqa: BLE001
+                run.kept_exceptions.append(e)
+        if rf.getters(w) != g_closed:
+            run.errors.append(({"class": "closed_writer_getters_changed"}, "refused calls on the closed writer changed its getters: %r -> %r" % (g_closed, rf.getters(w))))
         if model.open:
             # what the writer reports once it has been closed (the getters must stay available)
             run.after_close = (rf.getters(w), model.cursor, model.total_written, model.total_gap, model.last_abs,
@@ -294,10 +306,10 @@ def oracle_counters(run):
                         % (i, rec["op"], g[:3], cur, tot, gap)))
         if last_abs is not None:
             rel = rf.file_relpath(last_abs, cfg)
-            want_file = os.path.normpath(os.path.join(run.chdir, rel))
-            want_dir = os.path.normpath(os.path.dirname(want_file))
-            gf = os.path.normpath(g[3]) if g[3] else g[3]
-            gd = os.path.normpath(g[4]) if g[4] else g[4]
+            want_file = os.path.realpath(os.path.join(run.chdir, rel))
+            want_dir = os.path.realpath(os.path.dirname(want_file))
+            gf = os.path.realpath(g[3]) if g[3] else g[3]
+            gd = os.path.realpath(g[4]) if g[4] else g[4]
             if gf != want_file or gd != want_dir:
                 out.append(({"class": "last_file_dir"}, "op %d %r last file %r dir %r model %r"
                             % (i, rec["op"], g[3], g[4], want_file)))
@@ -308,10 +320,10 @@ def oracle_counters(run):
             out.append(({"class": "counters_after_close"}, "after close getters %r model %r" % (g[:3], (cur, tot, gap))))
         if last_abs is not None:
             rel = rf.file_relpath(last_abs, run.model.cfg or cfg)
-            want_file = os.path.normpath(os.path.join(run.chdir, rel))
-            gf = os.path.normpath(g[3]) if g[3] else g[3]
-            gd = os.path.normpath(g[4]) if g[4] else g[4]
-            if gf != want_file or gd != os.path.normpath(os.path.dirname(want_file)):
+            want_file = os.path.realpath(os.path.join(run.chdir, rel))
+            gf = os.path.realpath(g[3]) if g[3] else g[3]
+            gd = os.path.realpath(g[4]) if g[4] else g[4]
+            if gf != want_file or gd != os.path.realpath(os.path.dirname(want_file)):
                 out.append(({"class": "last_file_dir_after_close"}, "after close last file %r dir %r, most recently written sample is in %r"
                             % (g[3], g[4], want_file)))
     return out
